@@ -28,10 +28,13 @@ def star_sphere(rng, level=2, amp=0.25):
     return v * r[:, None], t
 
 
-def ellipsoid_y(rng, level=3):
-    """ellipsoid-like closed mesh whose longest axis is y, then z, then x (brain-like in FreeSurfer coordinates)"""
+def ellipsoid_y(rng, level=3, x_second=False):
+    """ellipsoid-like closed mesh whose longest axis is y, then z, then x (brain-like in FreeSurfer coordinates);
+    with `x_second` the order is y, x, z (the eigenfunctions 2 and 3 then have to be swapped)"""
     v, t = gen.icosphere(level)
     ax = np.array([rng.uniform(0.55, 0.7), rng.uniform(1.3, 1.6), rng.uniform(0.85, 1.0)])
+    if x_second:
+        ax = ax[[2, 1, 0]]
     return v * ax + 0.01 * rng.normal(size=v.shape), t
 
 
@@ -113,6 +116,63 @@ class Check(BaseCheck):
             stats.case("gate%s%s%s" % (svol, fl, sp), cls="gates")
             if not g.startswith(exp):
                 fails.append(core.Failure("correspondence", "quality gates vs model", "%s %s %s: %s" % (svol, fl, sp, g)))
+        # the whole decision pipeline of tria_spherical_project (flow_iter=0): given the eigenfunctions Solver.eigs returned, the result must be the
+        # model's spectral embedding (axis test, swap of eigenfunctions 2/3 with their poles, sign flips, rescaling) projected to radius 100
+        for k in range(6 if self.quick else 60):
+            r3 = gen.rng_for(self.seed, "c19embed", k)
+            v, t = gen.icosphere(3 if k % 3 else 2)
+            ax = [np.array([0.6, 1.5, 0.9]), np.array([0.9, 1.5, 0.6]), np.array([0.75, 1.4, 0.8])][k % 3] * r3.uniform(0.9, 1.1, 3)      # y longest; x/z order varies
+            v = v * ax + 0.01 * r3.normal(size=v.shape)
+            if k % 2:
+                v = v * np.array([-1.0, 1.0, -1.0])          # rotate by 180 degrees about y: other sign decisions
+            case = dict(kind="project", v=v, t=t, name="ellipsoid-y-embed")
+            gen.use(case)
+            seen = {}
+            real_flow = diffgeo.tria_mean_curvature_flow
+
+            def spy_flow(tria, *a, **kw):
+                seen["emb"] = np.array(tria.v, dtype=float)          # the spectral embedding handed to the curvature flow
+                return real_flow(tria, *a, **kw)
+            with core.quiet():
+                m = TriaMesh(v, t)
+                diffgeo.tria_mean_curvature_flow = spy_flow
+                try:
+                    with capture.capture() as calls:
+                        res = core.call(diffgeo.tria_spherical_project, m, 3 if k % 3 else 0)
+                finally:
+                    diffgeo.tria_mean_curvature_flow = real_flow
+            stats.case(core.mesh_key(v, t, "embed"), cls=["project-pipeline", "result:" + res[0], "embedding-captured:%s" % ("emb" in seen)])
+            if not calls.eigs:
+                fails.append(core.Failure("correspondence", "spherical projection pipeline vs model", "Solver.eigs not called", case)); continue
+            _, evals, evecs = calls.eigs[0]
+            rm = wire.Reply(drv.ask("embed %s %s %s %s" % (wire.verts(v), wire.floats(evecs[:, 1]), wire.floats(evecs[:, 2]), wire.floats(evecs[:, 3]))))
+            if rm.status != "ok":
+                if not (res[0] == "err" and res[1] == "ValueError"):
+                    fails.append(core.Failure("correspondence", "spherical projection pipeline vs model", "model rejects (%s), implementation %s" % (rm.raw[:60], res[:2]), case))
+                continue
+            emb = rm.v3s(); spat = rm.flt()
+            exp = 100 * emb / np.linalg.norm(emb, axis=1)[:, None]
+            if "emb" in seen:
+                if core.relerr(seen["emb"], emb) > 1e-9:
+                    fails.append(core.Failure("correspondence", "spherical projection pipeline vs model",
+                                              "the spectral embedding handed to the flow differs from the model's (rel. %.3g)" % core.relerr(seen["emb"], emb), case))
+                stats.monitor("spectral embeddings compared")
+                continue
+            if res[0] == "ok":
+                if core.relerr(np.asarray(res[1].v, float), exp) > 1e-9 or not np.array_equal(res[1].t, t):
+                    fails.append(core.Failure("correspondence", "spherical projection pipeline vs model", "vertices differ from the model's embedding (rel. %.3g)" % core.relerr(np.asarray(res[1].v, float), exp), case))
+            else:
+                # rejected by one of the gates: the model's gates on the model's embedding must reject too
+                with core.quiet():
+                    mm = TriaMesh(exp, t)
+                    svol = mm.area() / (4 * np.pi * 10000)
+                    tv = exp[t]; cr = np.cross(tv[:, 1] - tv[:, 0], tv[:, 2] - tv[:, 0])
+                    fl = float(np.sum(0.5 * np.linalg.norm(cr, axis=1)[np.sum(tv[:, 0] * cr, axis=1) < 0]) / (4 * np.pi * 10000))
+                g = drv.ask("gates %s %s %s" % (wire.fhex(float(svol)), wire.fhex(fl), wire.fhex(spat)))
+                if g.startswith("ok"):
+                    fails.append(core.Failure("correspondence", "spherical projection pipeline vs model", "implementation raised %s, the model accepts" % (res[1:3],), case))
+            stats.monitor("spherical projection pipelines compared")
+        gen.use(None)
         # thresholds present in the source
         src = repo.src("lapy/diffgeo.py")
         for lit in ("flippedarea > 0.95", "svol < 0.99", "flippedarea > 0.0008", "spatvol < 0.6", "vn = 100 * (vn / dist[:, np.newaxis])"):
@@ -127,9 +187,9 @@ class Check(BaseCheck):
         for k in range(2 if self.quick else 8):
             v, t = star_sphere(rng)
             yield dict(kind="spread", v=v, t=t, name="star")
-        for k in range(2 if self.quick else 8):
-            v, t = ellipsoid_y(rng)
-            yield dict(kind="project", v=v, t=t, name="ellipsoid-y")
+        for k in range(6 if self.quick else 24):
+            v, t = ellipsoid_y(rng, x_second=bool(k % 2))
+            yield dict(kind="project", v=v, t=t, name="ellipsoid-y" + ("-x-second" if k % 2 else ""))
         yield dict(kind="project-open", v=gen.grid(3, 3)[0], t=gen.grid(3, 3)[1], name="grid")
 
     def oracle(self, case):
@@ -188,9 +248,19 @@ class Check(BaseCheck):
         with core.quiet():
             m = TriaMesh(v, t); m.orient_()
             v0, t0 = m.v.copy(), m.t.copy()
-        r = core.call(diffgeo.tria_spherical_project, m, 3)
+        # the eigensolver's start vector is random: signs of the eigenfunctions differ from call to call; several tries
+        r = None
+        for attempt in range(16):
+            r = core.call(diffgeo.tria_spherical_project, m, 3)
+            if r[0] == "err" and r[1] != "ValueError":
+                return core.Violation("project", "raised %s: %s" % (r[1], r[2]), case)
+            if r[0] == "ok":
+                o = r[1]
+                bad = [ax for ax in range(3) if np.corrcoef(o.v[:, ax], v0[:, ax])[0, 1] <= 0]
+                if bad or not np.array_equal(o.t, t0):
+                    break
         if r[0] == "err":
-            return None if r[1] == "ValueError" else core.Violation("project", "raised %s: %s" % (r[1], r[2]), case)
+            return None
         out = r[1]
         if not np.array_equal(out.t, t0) or not np.array_equal(m.v, v0):
             return core.Violation("project", "connectivity changed or argument modified", case)
